@@ -466,8 +466,18 @@ def r7(ctx):
           "kind: request.state.kind, time_in_force: request.state.time_in_force, state: Result::Err{0: Into::into(error)}}", effects=[])
     L(ctx, "AssetFees::quote_fees", ctx.ibody(ctx.find(path="barter_execution::trade::AssetFees::<barter_instrument::asset::QuoteAsset>::quote_fees")),
       "the fee constructor stores the given amount", ret="AssetFees::AssetFees{asset: QuoteAsset::QuoteAsset{}, fees: fees}", effects=[])
-    L(ctx, "MockExchange::build_account_event", ctx.fibody(name="build_account_event", self_adt=MX, trait=""),
-      "notifications carry the exchange's own id and the given payload", ret="AccountEvent::AccountEvent{exchange: self.exchange, kind: Into::into(kind)}", effects=[])
+    # decided at the call sites (helper parameters replaced by the actual arguments): it does not matter whether the exchange
+    # id reaches the helper through `&self` or as an explicit argument
+    snb = ctx.fibody(name="send_notifications_with_latency", self_adt=MX, trait="")
+    evs = []
+    for bi, t, tm in snb.real_calls():
+        if mir.short(tm[1]) == "MockExchange::build_account_event":
+            for g, term in (common.at_call(ctx, tm) or []):
+                evs.append(render(term))
+    ctx.check("MockExchange::build_account_event", sorted(evs) == [
+        "AccountEvent::AccountEvent{exchange: self.exchange, kind: Into::into(notifications.balance)}",
+        "AccountEvent::AccountEvent{exchange: self.exchange, kind: Into::into(notifications.trade)}"],
+        "the two notifications carry the exchange's own id and the balance / trade payloads", got=sorted(evs), key="role")
     L(ctx, "AccountState::update_time_exchange", ctx.fibody(name="update_time_exchange", self_adt=ACC, trait=""),
       "advancing exchange time only re-stamps balances and open orders (no amount changes)",
       effects=["HashMap::values_mut(self.balances)", "HashMap::values_mut(self.orders_open)",
